@@ -433,12 +433,13 @@ pub fn enumerate(specs: &[Specimen], seed: u64, tier: Tier, only_covered: bool) 
                     cases.push((si, Damage::Multi { file: fi, flips }));
                 }
             }
-            // big compressed clusters: a few KiB of noise in the middle and towards the end (decoding then fails after a prefix
-            // of the cluster has been decoded and published)
+            // big compressed clusters: 140 KiB of noise in the middle and towards the end: more than one compressed block, so
+            // that a block header is hit and decoding FAILS after a prefix of the cluster has been decoded and published (noise
+            // inside entropy-coded literals mostly decodes, to other bytes, without any error)
             for sp in view.spans.iter().filter(|sp| sp.name == "cluster data (compressed)" && sp.end - sp.start >= 65_536) {
                 for frac in [2u64, 4] {
                     let start = sp.start + (sp.end - sp.start) * (frac - 1) / frac;
-                    cases.push((si, Damage::Overwrite { file: fi, start, len: 4096.min(sp.end - start), seed: rng.next() }));
+                    cases.push((si, Damage::Overwrite { file: fi, start, len: (140 * 1024).min(sp.end - start), seed: rng.next() }));
                 }
             }
             if only_covered {
@@ -680,6 +681,12 @@ pub fn run_for(desc: &Value, ctx: &Ctx, oracle: Oracle) -> CaseOut {
     };
     let got = dump_container(&dir.join("c.jbk"), plan);
     out.obs.add("items_dumped", got.len() as u64);
+    if std::env::var_os("JV_DEBUG_DUMP").is_some() {
+        // debugging aid for replays: what the reader answered, item by item, where it is not a plain value
+        for (k, v) in got.iter().filter(|(_, v)| !v.starts_with("ok:")).take(60) {
+            eprintln!("DUMP {k} = {}", util::truncate(v, 200));
+        }
+    }
     let _class = format!("{}:{}", d.op(), structure_class(&structure));
     match oracle {
         Oracle::C06 => {
